@@ -247,8 +247,14 @@ def checks_st(draw, cls, en, max_size=3):
 def column_st(draw, en, key):
     dtype = draw(st.one_of(st.none(), st.sampled_from(ALL_DTYPES), st.sampled_from(ALL_DTYPES)))
     cls = dclass(dtype)
+    cclass = None
+    if dtype is None and draw(st.integers(0, 2)) == 0:
+        # a column that declares no dtype of its own still has values of some kind (often the schema-wide dtype says
+        # which): its checks then carry bounds of that kind - timestamps, durations, text
+        cclass = cls = draw(st.sampled_from(["dt", "dt", "td", "str"]))
     return {
         "key": key,
+        "cclass": cclass,
         "dtype": dtype,
         "nullable": draw(st.booleans()),
         "unique": draw(st.sampled_from([False, False, True])),
@@ -346,15 +352,16 @@ def schema_st(draw, en):
 
     frame_checks = []
     if "frame-checks" in en:
-        frame_checks = draw(checks_st("int", en, max_size=2))
+        fcls = draw(st.sampled_from(["int", "int", "int", "dt"]))  # (a frame of timestamps has timestamp bounds)
+        frame_checks = draw(checks_st(fcls, en, max_size=2))
         if not frame_checks:
-            frame_checks = [draw(check_st("int", en))]
+            frame_checks = [draw(check_st(fcls, en))]
 
     return {
         "columns": columns,
         "index": index,
         "checks": frame_checks,
-        "dtype": draw(st.sampled_from(["int64", "float64", "str"])) if "schema-dtype" in en else None,
+        "dtype": draw(st.sampled_from(["int64", "float64", "str", "datetime64[ns]", "timedelta64[ns]"])) if "schema-dtype" in en else None,
         "coerce": draw(st.sampled_from([False, False, True])),
         "strict": "filter" if "strict-filter" in en else draw(st.sampled_from([False, False, True])),
         "name": draw(text_st(True, UNSAFE_COMPONENT_CHARS)),  # emitted with repr(): unsafe characters are fine
@@ -423,7 +430,7 @@ def probe_st(draw, spec):
         for nm in names:
             if draw(st.integers(0, 9)) == 0:
                 continue  # column absent
-            phys = c["dtype"] or "int64"
+            phys = c["dtype"] or {"dt": "datetime64[ns]", "td": "timedelta64[ns]", "str": "str"}.get(c.get("cclass"), "int64")
             if draw(st.integers(0, 7)) == 0:
                 phys = draw(st.sampled_from(["int64", "float64", "object", "str"]))
             p = pool(phys, c["checks"] + spec["checks"])
